@@ -31,8 +31,8 @@ ASSUMPTIONS = [
     "scripted terminal; unsupported styles are instantiated with the public forced_support",
 ]
 PERSONAS = ["other", "kitty-0.19", "kitty-0.25", "kitty-0.32", "konsole", "wezterm", "iterm2"]
-SIZES = {"quick": 500, "thorough": 12000}
-MIN_EVENTS = {"renders executed": {"quick": 2000, "thorough": 20000}}
+SIZES = {"quick": 500, "thorough": 100000}
+MIN_EVENTS = {"renders executed": {"quick": 2000, "thorough": 300000}}
 
 ALPHAS = ["", "#", "#.5", "#.0", "#.999", "##", "#a0b1c2", "#000000"]
 METHODS = {"block": [""], "kitty": ["", "L", "W"], "iterm2": ["", "L", "W", "A"]}
